@@ -92,13 +92,20 @@ def verify(mod, tier, seed, only_fn=None):
         obs = [o for o in obs if o.fn == only_fn]
     timeout = 20000 if tier == "quick" else 120000
     # vacuity guard: `False` must NOT be provable from the path condition of at least one path reaching each cover
-    cov_obs, cov_idx = [], []
+    cov_labels = []
+    ok_labels = set()
     for sp, lab, pcs in run_specs.last_covers:
-        for pc in pcs[:2]:
-            cov_obs.append(engine.Obligation(f"cover[{lab}]", "cover", pc, z3.BoolVal(False), lab, sp.qualname))
-            cov_idx.append((sp.qualname + (":" + sp.tag if getattr(sp, "tag", None) else ""), lab))
-    cres = solve.discharge(cov_obs, timeout_ms=1500, seed=seed, fallback=False) if cov_obs else []
-    ok_labels = {k for k, r in zip(cov_idx, cres) if r["verdict"] != "unsat"}
+        key = (sp.qualname + (":" + sp.tag if getattr(sp, "tag", None) else ""), lab)
+        cov_labels.append(key)
+        # infeasible paths may reach a label first (cheap feasibility pruning is incomplete): look for one consistent
+        # path condition, in batches
+        for i in range(0, len(pcs), 8):
+            batch = [engine.Obligation(f"cover[{lab}]", "cover", pc, z3.BoolVal(False), lab, sp.qualname) for pc in pcs[i:i + 8]]
+            cres = solve.discharge(batch, timeout_ms=1200, seed=seed, fallback=False)
+            if any(r["verdict"] != "unsat" for r in cres):
+                ok_labels.add(key)
+                break
+    cov_idx = cov_labels
     for k in sorted(set(cov_idx)):
         if k not in ok_labels:
             undecided.append(f"{k[0]}: every path condition reaching cover `{k[1]}` is inconsistent (vacuous proof guard)")
